@@ -327,7 +327,7 @@ MUST_REACH = ["t4_other_file_identifier", "ctl_tlv_byte_offset_beyond_page_size"
               "rsv_beyond_data_area", "rsv_at_end_of_data_area", "rsv_after_message",
               "t1_message_spans_reserved_blocks", "nxp_vendor_class", "felica_vendor_class"]
 BOUNDS = {
-    "quick": "Type 2: data areas of 48 bytes (13 control-TLV layouts, lengths from boundary sets), 264 bytes with 5..9 bytes of TLVs in front (capacity edge at 254/255), 496 bytes (plain, lock TLV, NULL+memory TLV) with lengths around 254/255/256 and the capacity, one two-sector tag (2032 bytes) written across the sector boundary, NXP products NTAG213/215/203 and Ultralight EV1 through their vendor classes; Type 1: Topaz, static with NULL/memory TLV, Topaz-512, generic dynamic tags (HR0 12h/13h/1Fh; 256, 296, 512 bytes); Type 3: seven (Nbr, Nbw, Nmaxb) triples incl. Nbr 15, a 64 KiB data area, FeliCa Lite/Lite-S vendor classes, and the library's own Type 3 emulation as the tag; Type 4: mapping versions 2 and 3, Type 4A/4B, FSCI 2/5/8, MLe and MLc symbolic over 1..FFFFh, AID versions.  All message bytes and all previous tag contents symbolic (except the 64 KiB and sector-crossing partitions)",
+    "quick": "Type 2: data areas of 48 bytes (13 control-TLV layouts, lengths from boundary sets), 264 bytes with 5..9 bytes of TLVs in front (capacity edge at 254/255), 496 bytes (plain, lock TLV, NULL+memory TLV) with lengths around 254/255/256 and the capacity, one two-sector tag (2032 bytes) written across the sector boundary, NXP products NTAG213/215/203 and Ultralight EV1 through their vendor classes; Type 1: Topaz, static with NULL/memory TLV, Topaz-512, generic dynamic tags (HR0 12h/13h/1Fh; 256, 296, 512 bytes); Type 3: seven (Nbr, Nbw, Nmaxb) triples incl. Nbr 15, a 64 KiB data area, FeliCa Lite/Lite-S vendor classes, and the library's own Type 3 emulation as the tag; Type 4: mapping versions 2 and 3, Type 4A/4B, FSCI 2/5/8, MLe and MLc symbolic over 1..FFFFh, AID versions.  All message bytes and all previous tag contents symbolic (except the 64 KiB and sector-crossing partitions); added later: proprietary TLVs and two control TLVs of a kind, reserved ranges between T/L/V bytes (known finding), a 2 KiB Type 1 tag, two writes through one NDEF object, control TLVs with size byte 00h, control-TLV encodings whose byte offset reaches into the next pages, Type 4 files with identifiers other than E104h and further CC TLVs",
     "thorough": "as quick, plus every message length for the 48-byte Type 2 and 120-byte Type 1 areas, data areas 872/2032, more Type 3 triples, NTAG216, further Type 4 combinations"}
 OUTSIDE = ["data area sizes and layouts other than listed", "more than two lock- or memory-control TLVs of a kind",
            "message contents of the 64 KiB / sector-crossing partitions (concrete there: the subject is the length and address arithmetic)"]
